@@ -126,12 +126,12 @@ impl Value {
     { unimplemented!() }
 }
 
-// (6) the parts of ty_example that are NOT under contract here (opaque calls, rules R8'' / R8'''):
+// (6) the parts of ty_example that are NOT under contract here (opaque calls):
 //     - primitive_type_def_example: its contract below (the kind and range of the value per primitive) is what the Kani harnesses
 //       primex_* prove on the real function (U-PRIMEX); here it is assumed;
-//     - the draw of a variant (`variants.choose(rng).ok_or_else(..)?`): some variant of the list, or an error;
-//     - the Array arm's `(0..len).map(|_| resolve(..)).collect::<Result<Vec<_>>>()?`: len values, each valid for the element type;
-//     - the BitSequence arm (rng-driven loop): some bit sequence.
+//     - the BitSequence arm (rng-driven loop, R8'''): some bit sequence.
+//     (opaque_choose_variant / opaque_array_elements are no longer used: the draw of a variant and the Array arm are verbatim, see
+//      ChooseShim and range_map_collect_result.)
 pub open spec fn prim_shape(v: Value, p: TypeDefPrimitive) -> bool {
     v.value is Primitive && match p {
         TypeDefPrimitive::Bool => v.value->Primitive_0 is Bool,
@@ -155,9 +155,33 @@ pub open spec fn prim_shape(v: Value, p: TypeDefPrimitive) -> bool {
 pub fn primitive_type_def_example(primitive: &TypeDefPrimitive, rng: RngHandle) -> (v: Value)
     ensures prim_shape(v, *primitive)
 { unimplemented!() }
+// ASSUMED contracts: rand's SliceRandom::choose on a Vec -- None iff the list is empty, else a reference to one of its elements (which one
+// is the rng's business); Option::ok_or_else is specified by vstd.
+pub trait ChooseShim<T>: Sized {
+    spec fn items(&self) -> Seq<T>;
+    fn choose(&self, rng: RngHandle) -> (r: Option<&T>)
+        ensures self.items().len() == 0 ==> r is None,
+            self.items().len() > 0 ==> r is Some && exists|k: int| 0 <= k < self.items().len() && *r->0 == #[trigger] self.items()[k];
+}
+impl<T> ChooseShim<T> for Vec<T> {
+    open spec fn items(&self) -> Seq<T> { self@ }
+    #[verifier::external_body]
+    fn choose(&self, rng: RngHandle) -> (r: Option<&T>) { unimplemented!() }
+}
 #[verifier::external_body]
 pub fn opaque_choose_variant<'a>(variant: &'a TypeDefVariant, transformer: &ValueTransformer) -> (r: AnyResult<&'a Variant>)
     ensures r is Ok ==> exists|k: int| 0 <= k < variant.variants@.len() && *r->Ok_0 == #[trigger] variant.variants@[k]
+{ unimplemented!() }
+// ASSUMED std contract: `(lo..hi).map(f).collect::<Result<Vec<_>, _>>()` (and `lo..=hi`) -- an Ok result holds f(lo), f(lo + 1), ... in order,
+// one per index of the range (rule R13'); an Err is the first error f returned.
+pub open spec fn range_len(lo: u32, hi: u32, inclusive: bool) -> int {
+    if inclusive { if hi >= lo { hi - lo + 1 } else { 0 } } else { if hi > lo { hi - lo } else { 0 } }
+}
+#[verifier::external_body]
+pub fn range_map_collect_result<T, F: Fn(u32) -> AnyResult<T>>(lo: u32, hi: u32, inclusive: bool, f: F) -> (r: AnyResult<Vec<T>>)
+    requires forall|i: u32| call_requires(f, (i,))
+    ensures r is Ok ==> r->Ok_0@.len() == range_len(lo, hi, inclusive)
+        && forall|k: int| 0 <= k < r->Ok_0@.len() ==> call_ensures(f, ((lo + k) as u32,), Ok::<T, AnyError>(#[trigger] r->Ok_0@[k]))
 { unimplemented!() }
 #[verifier::external_body]
 pub fn opaque_array_elements(transformer: &ValueTransformer, array: &TypeDefArray) -> (r: AnyResult<Vec<Value>>)
